@@ -98,6 +98,14 @@ CHECKS = {
             'sample for sample, to an independent digitiser -> FIR+DFT -> channel selection -> requantiser -> packing reference.',
             'quantiser statistics from a common prefix (stats_calc_period=-1); source chunk-invariance is C10/C15; rounding-tie window 1e-6 (+-1 allowed, counted)',
             'DESIGN.md 3/C02'),
+    'C04': ('exploration',
+            'Hypothesis generated header dictionaries and recordings vs an independent strict GUPPI parser; rational recomputation of configuration-owned cards; reader differential under injected directory-listing permutations',
+            'Generated recordings (1-45 blocks over 1-45 files, template on/off, DIRECTIO absent/0/1/\"1\", 0-70 user cards steered to every '
+            'header length mod 32, bogus values for owned keys, user PKTIDX) are parsed strictly by an independent reader; owned cards are recomputed '
+            'exactly, user cards must survive, and read_header/get_blocks_in_file/get_blocks_per_file/get_total_blocks/get_raw_params must agree with '
+            'the parser under every (<=4 files) or 6 sampled listing orders.',
+            'header-relative padding; valid cards only (no quotes/empty strings/long keys); listing order injected by replacing raw_utils.glob in-process; blimpy GuppiRaw not used as second reader',
+            'DESIGN.md 3/C04'),
 }
 
 ALL = [f'C{i:02d}' for i in range(1, 21)]
